@@ -63,13 +63,15 @@ def kernel_vector(cols):
 
 def run(o, repo, tmp, results):
     t0 = time.time()
-    crate = os.path.join(VERIF, "native", "xorcols")
+    import shutil
+    crate = os.path.join(tmp, "xorcols")
+    shutil.copytree(os.path.join(VERIF, "native", "xorcols"), crate, dirs_exist_ok=True)
+    mf = os.path.join(crate, "Cargo.toml")
+    txt = open(mf).read().replace('path = "/repo/core"', f'path = "{repo}/core"')
+    open(mf, "w").write(txt)
     tdir = os.path.join(tmp, "native-xorcols")
     env = dict(os.environ, CARGO_NET_OFFLINE="true", CARGO_TARGET_DIR=tdir)
-    # the path dependency is /repo/core; honour VERIF_REPO by a config override
-    cmd = ["cargo", "run", "--offline", "-q", "--manifest-path", os.path.join(crate, "Cargo.toml")]
-    if repo != "/repo":
-        cmd += ["--config", f"patch.'file:///repo/core'.retrofire-core.path='{repo}/core'"]
+    cmd = ["cargo", "run", "--offline", "-q", "--manifest-path", mf]
     p = subprocess.run(cmd, env=env, capture_output=True, text=True, timeout=900)
     if p.returncode != 0:
         results[o.key] = {"status": "undecided", "reason": "native column extraction did not build/run", "detail": p.stderr[-1500:], "checks": 0}
